@@ -23,8 +23,9 @@ type ListV struct {
 
 // MapV is a map (reference semantics) with typed keys (float64 | string).
 type MapV struct {
-	M    map[interface{}]Value
-	Dead bool
+	M     map[interface{}]Value
+	Dead  bool
+	Loose map[interface{}]bool // number keys created by assignment: whether iteration yields them as number or text is not documented
 }
 
 // FuncV is a function value (closure, optionally bound to an object).
@@ -480,6 +481,14 @@ func (in *Interp) assign(l *E, v Value, sc *Scope, local bool) signal {
 			if !ok {
 				return unspec("map-key-kind")
 			}
+			if _, isNum := k.(float64); isNum {
+				if _, present := c.M[k]; !present {
+					if c.Loose == nil {
+						c.Loose = map[interface{}]bool{}
+					}
+					c.Loose[k] = true
+				}
+			}
 			c.M[k] = v
 			return none
 		}
@@ -584,6 +593,9 @@ func (in *Interp) iterate(e *E, sc *Scope) ([]Value, signal) {
 		for k := range c.M {
 			if k == "\x00errobj" {
 				return nil, unspec("iterate-error-object")
+			}
+			if c.Loose[k] {
+				return nil, unspec("iteration-key-kind-of-assigned-number-key")
 			}
 			ks = append(ks, kv{keyString(k), k})
 		}
@@ -1047,28 +1059,9 @@ func (in *Interp) call(e *E, sc *Scope) (Value, signal) {
 	var fv Value
 	var sig signal
 	if callee.K == "dot" || callee.K == "idx" {
-		// method call: evaluate the receiver once
-		cv, s2 := in.eval(callee.A[0], sc)
-		if s2.kind != sigNone {
-			return nil, s2
-		}
-		m, ok := cv.(*MapV)
-		if !ok || m.Dead {
-			return nil, unspec("method-call-on-non-map")
-		}
-		var key Value = callee.S
-		if callee.K == "idx" {
-			if key, s2 = in.eval(callee.A[1], sc); s2.kind != sigNone {
-				return nil, s2
-			}
-		}
-		k, ok := mapKey(m, key)
-		if !ok {
-			return nil, unspec("map-key-kind")
-		}
-		var present bool
-		if fv, present = m.M[k]; !present {
-			return nil, unspec("read-of-missing-key")
+		// call of a function stored in a container (method call, super[i](), list of functions)
+		if fv, sig = in.access(callee, sc); sig.kind != sigNone {
+			return nil, sig
 		}
 	} else if fv, sig = in.eval(callee, sc); sig.kind != sigNone {
 		return nil, sig
@@ -1248,10 +1241,13 @@ func (in *Interp) builtin(name string, args []Value, sc *Scope) (Value, signal) 
 			if !ok {
 				return nil, unspec("map-key-kind")
 			}
-			n := &MapV{M: map[interface{}]Value{}}
+			n := &MapV{M: map[interface{}]Value{}, Loose: map[interface{}]bool{}}
 			for kk, v := range c.M {
 				if kk != k {
 					n.M[kk] = v
+					if c.Loose[kk] {
+						n.Loose[kk] = true
+					}
 				}
 			}
 			c.Dead = true
